@@ -643,14 +643,27 @@ def _base_and_offset(fn, e, depth=0):
     return None
 
 
-def _terminator_verified(g, at, vd, buf):
+def _terminator_verified(g, at, vd, buf, fn=None):
     """The facts at `at` imply buf[v-1] == 0x0D (v being the declaration vd)."""
+    def resolve(e, depth=0):
+        # a never-reassigned local stands for its initialiser
+        e = strip_all(e)
+        if fn is not None and e is not None and e.get("k") == "DeclRefExpr" and e.get("dk") == "Var" and depth < 3 and \
+                not any(d_ == e["d"] for x in fn.walk() for d_, _ in flow.written_decls(x)):
+            for v in fn.walk():
+                if v.get("k") == "VarDecl" and v.get("d") == e["d"] and v.get("c"):
+                    return resolve(v["c"][0], depth + 1)
+        return e
+
     def is_last(sub):
-        sub = strip_all(sub)
+        sub = resolve(sub)
         if sub is None or sub.get("k") != "ArraySubscriptExpr":
             return False
         if not flow.same_expr(sub["c"][0], buf):
             return False
+        if fn is not None:
+            bo = _base_and_offset(fn, sub["c"][1])
+            return bool(bo and bo[0] == vd and bo[2] == -1)
         bo = None
         idx = strip_all(sub["c"][1])
         if idx is not None and idx.get("k") == "BinaryOperator" and idx.get("op") == "-" and folded(idx["c"][1]) == 1:
@@ -726,7 +739,7 @@ def rule_whole_body_listed(prog, fixture=False):
                 r.undecided.append("%s: cannot relate the length given to the line decoder to the fread count `%s`" % (fn.loc(dc), vn))
                 continue
             off = lenarg[1][2]
-            verified = off < 0 and _terminator_verified(g, dc, vd, buf)
+            verified = off < 0 and _terminator_verified(g, dc, vd, buf, fn)
             problem = None
             for n in fn.walk():
                 if not (order[id(call)] < order[id(n)] < order[id(dc)]):
@@ -743,7 +756,7 @@ def rule_whole_body_listed(prog, fixture=False):
                               "gets the number of bytes read" % (fn.loc(n), vn, show(n)[:50])
                     break
                 off -= 1
-                if _terminator_verified(g, n, vd, buf):
+                if _terminator_verified(g, n, vd, buf, fn):
                     verified = True
             if problem is None and off not in (0, -1):
                 problem = "the line decoder is given %d bytes fewer than were read" % -off if off < 0 else \
